@@ -26,8 +26,14 @@ from fjv import c01, engines, tlc
 from fjv.core import Check, MachineryFailure
 
 CHILD = r'''
-import sys, json, time, io, contextlib
+import sys, json, time, io, contextlib, signal
 sys.path.insert(0, sys.argv[1])
+CPU_BUDGET = 60          # seconds of this process's own CPU time per assembly (a loaded machine must not look like a hang)
+class _Hang(BaseException):
+    pass
+def _on_prof(signum, frame):
+    raise _Hang()
+signal.signal(signal.SIGPROF, _on_prof)
 import flipjump
 from pathlib import Path
 from flipjump.fjm.fjm_consts import FJMVersion
@@ -39,12 +45,18 @@ for c in spec:
     out = Path(c["out"])
     if out.exists():
         out.unlink()
-    t0 = time.time()
+    t0 = time.process_time()
     o = {"outcome": "ok", "class": "", "generic": False, "msg": "", "cause": ""}
     try:
-        with contextlib.redirect_stdout(io.StringIO()):
-            flipjump.assemble([Path(c["src"])], out, memory_width=c["w"], fjm_version=FJMVersion(c["version"]), use_stl=c.get("stl", False),
-                              print_time=False, warning_as_errors=False)
+        signal.setitimer(signal.ITIMER_PROF, CPU_BUDGET)
+        try:
+            with contextlib.redirect_stdout(io.StringIO()):
+                flipjump.assemble([Path(c["src"])], out, memory_width=c["w"], fjm_version=FJMVersion(c["version"]), use_stl=c.get("stl", False),
+                                  print_time=False, warning_as_errors=False)
+        finally:
+            signal.setitimer(signal.ITIMER_PROF, 0)
+    except _Hang:
+        o["outcome"] = "hang"
     except BaseException as e:
         o["outcome"] = "exception"
         o["class"] = type(e).__name__
@@ -52,7 +64,7 @@ for c in spec:
         o["generic"] = "please report this bug" in str(e)
         o["cause"] = type(e.__cause__).__name__ if e.__cause__ is not None else ""
         o["raw"] = not isinstance(e, FlipJumpException)
-    o["secs"] = time.time() - t0
+    o["secs"] = 999 if o["outcome"] == "hang" else time.process_time() - t0          # CPU seconds
     loadable = False
     if out.exists():
         try:
@@ -159,6 +171,8 @@ def run_children(cases: List[dict], scratch: Path, nproc: int = 16, budget: int 
         wp, op = scratch / f"rw{c['id']}.json", scratch / f"ro{c['id']}.json"
         wp.write_text(json.dumps([c]))
         try:
+            # risky cases (huge shifts / exponents) spend their time inside one C-level big-number operation that no signal
+            # interrupts: they are killed from outside after a wall-clock budget
             subprocess.run([sys.executable, str(child), str(engines.REPO), str(wp), str(op)], timeout=budget, capture_output=True,
                            env=dict(os.environ, PYTHONHASHSEED="0"))
         except subprocess.TimeoutExpired:
@@ -181,7 +195,7 @@ def run_children(cases: List[dict], scratch: Path, nproc: int = 16, budget: int 
             if op.exists():
                 op.unlink()
             try:
-                subprocess.run([sys.executable, str(child), str(engines.REPO), str(wp), str(op)], timeout=budget + 5 * 0 + 60, capture_output=True,
+                subprocess.run([sys.executable, str(child), str(engines.REPO), str(wp), str(op)], timeout=120 + 90 * len(pending), capture_output=True,
                                env=dict(os.environ, PYTHONHASHSEED="0"))
                 hung = False
             except subprocess.TimeoutExpired:
@@ -231,7 +245,7 @@ def run(chk: Check, replay=None):
     rng = random.Random(chk.seed + 14)
     chk.assumptions += [
         "'names the offending construct' is judged as: the message contains a token of the construct (operator, identifier, value) or a line reference",
-        "time budget 20 s per assembly (a hang is killed); 'loadable' = the real Reader accepts what is left at the output path",
+        "time budget: 20 s of the assembling process's own CPU time (so machine load does not count; a hang is cut at 60 CPU-seconds; the huge-number cases are killed after 25 s of wall time); 'loadable' = the real Reader accepts what is left at the output path",
     ]
     cfg = """SPECIFICATION Spec
 CONSTANTS
@@ -240,7 +254,7 @@ CONSTANTS
   EmitOn = TRUE
 CONSTRAINT Emit
 CHECK_DEADLOCK FALSE
-""" % (("16, 64" if quick else "8, 16, 32, 64"), ("1, 3" if quick else "0, 1, 2, 3"))
+""" % (("16, 64" if quick else "16, 32, 64"), ("1, 3" if quick else "0, 1, 2, 3"))      # (the skeletons do not fit the 256 bits of w=8)
     res = tlc.run_tlc("FJAsmDiag", cfg, workers=1, timeout=600)
     chk.add_tlc(res, "FJAsmDiag (fault matrix)", exhaustive=True)
     matrix = res.emitted.get("C", [])
